@@ -18,7 +18,7 @@
 #include "fault.h"
 
 #define MARK 8888888
-#define MAXL 64
+#define MAXL 256
 #define HUGE_M 1000000
 
 static long n_edges, n_events, n_mismatch, n_drift, n_nontrivial;
@@ -376,8 +376,96 @@ static int parse_ints(char const *s, int *out, int max)
     return n;
 }
 
+/* ------------------------------------------------------------------ long random histories on ONE live object.
+ * No expectation is computed here: every step is logged with the state before and after, and the trace specification
+ * judges each step by itself (SeqTrace).  Lengths go far beyond the exhaustively explored ones (up to MAXL - 8). */
+static uint64_t rnd_s;
+static unsigned rnd(void)
+{
+    rnd_s ^= rnd_s << 13; rnd_s ^= rnd_s >> 7; rnd_s ^= rnd_s << 17;
+    return (unsigned)(rnd_s >> 24);
+}
+static int random_step(obj *po, edge *e, FILE *fo)
+{
+    obj o = *po;
+    cur_edge = e;
+    void *p = NULL;
+    int rc = 0, rslot = -1, rval = 0;
+    a_size oldnum = (a_size)e->n;
+    a_byte blk[MAXL * 32];
+    a_byte keyobj[64];
+    int isvec = e->kind == 1;
+    (void)keyobj;
+    f_begin(0, 0);
+#include "seq_ops.inc"
+    f_end();
+#include "seq_post.inc"
+    int pnum = (int)o_num(&o), pmem = (int)o_mem(&o), psiz = (int)o_siz(&o);
+    int pseq[MAXL];
+    if (pnum > MAXL || pnum > pmem) { fprintf(stderr, "random history: length %d beyond the log capacity or the storage %d\n", pnum, pmem); pnum = pnum > MAXL ? MAXL : pnum; }
+    for (int i = 0; i < pnum && i < pmem; ++i) { pseq[i] = get_elem(base(&o) + (a_size)i * (a_size)psiz, (a_size)psiz); }
+    log_event(fo, e, rslot, rval, rc, pnum, pmem, psiz, pseq);
+    *po = o;
+    return 0;
+}
+static int do_random(unsigned long seed, int nhist, int nops, char const *prefix, int nb)
+{
+    FILE *fo[64];
+    char name[512];
+    if (nb > 64) { nb = 64; }
+    for (int i = 0; i < nb; ++i)
+    {
+        snprintf(name, sizeof(name), "%s-%04d.ndjson", prefix, i);
+        fo[i] = fopen(name, "w");
+        if (!fo[i]) { perror(name); return 3; }
+    }
+    static int const sizes[] = {1, 3, 8}, ops[] = {1, 1, 1, 2, 2, 3, 3, 3, 4, 5, 6, 6, 7, 8, 9, 10, 12, 17, 18, 19, 21, 22, 22, 23};
+    rnd_s = 0x9E3779B97F4A7C15ull ^ (seed * 1000003ull);
+    for (int h = 0; h < nhist; ++h)
+    {
+        obj o;
+        memset(&o, 0, sizeof(o));
+        o.kind = 1 + h % 2;
+        int siz = sizes[rnd() % 3];
+        if (o.kind == 1) { a_vec_ctor(&o.v, (a_size)siz); }
+        else { o.b = a_buf_new((a_size)siz, (a_size)(8 + rnd() % 48)); }
+        for (int t = 0; t < nops; ++t)
+        {
+            edge e;
+            memset(&e, 0, sizeof(e));
+            int n = (int)o_num(&o);
+            e.kind = o.kind; e.siz = (int)o_siz(&o); e.mem = (int)o_mem(&o); e.n = n;
+            for (int i = 0; i < n; ++i) { e.seq[i] = get_elem(base(&o) + (a_size)i * (a_size)e.siz, (a_size)e.siz); }
+            e.op = ops[rnd() % (sizeof(ops) / sizeof(ops[0]))];
+            if (n >= MAXL - 8 && (e.op <= 3 || e.op == 7 || e.op == 9 || e.op == 22)) { e.op = 4 + (int)(rnd() % 3); } /* keep the log capacity */
+            int where = (int)(rnd() % 8);
+            e.a1 = where == 0 ? HUGE_M : where == 1 ? n + 1 : where == 2 ? n : (n ? (int)(rnd() % (unsigned)n) : 0);
+            e.a2 = 10 * (int)(rnd() % 10) + (int)(rnd() % 10);
+            if (e.op == 7) { e.nblk = 1 + (int)(rnd() % 3); for (int i = 0; i < e.nblk; ++i) { e.blk[i] = 10 * (int)(rnd() % 10) + i; } e.a2 = e.nblk; }
+            if (e.op == 8) { e.a2 = (int)(rnd() % 4); }
+            if (e.op == 12 && rnd() % 4) { e.op = 1; }
+            if (e.op == 9) { e.a1 = n - 2 + (int)(rnd() % 6); if (e.a1 < 0) { e.a1 = 0; } if (e.kind == 2 && e.a1 > e.mem) { e.a1 = e.mem; } if (e.a1 > MAXL - 8) { e.a1 = MAXL - 8; } }
+            if (e.op == 10) { e.a1 = e.kind == 1 ? (int)(rnd() % (unsigned)(n + 12)) : n + (int)(rnd() % 12); if (e.a1 > MAXL) { e.a1 = MAXL; } }
+            if (e.op == 18) { e.a1 = (int)(rnd() % (unsigned)(2 * n + 3)) - n - 1; }
+            ++n_edges;
+            if (random_step(&o, &e, fo[(n_edges / 256) % nb])) { return 3; }
+        }
+        destroy(&o);
+    }
+    for (int i = 0; i < nb; ++i) { fclose(fo[i]); }
+    printf("SUMMARY {\"edges\":%ld,\"events\":%ld,\"mismatch\":0,\"drift\":0,\"nontrivial\":%ld,\"cases\":[0],\"ops\":[0]}\n", n_edges, n_events, n_edges);
+    return 0;
+}
+
 int main(int argc, char **argv)
 {
+    if (argc >= 7 && !strcmp(argv[1], "random"))
+    {
+        __sanitizer_set_death_callback(on_death);
+        signal(SIGABRT, on_abort);
+        f_install();
+        return do_random(strtoul(argv[2], 0, 10), atoi(argv[3]), atoi(argv[4]), argv[5], atoi(argv[6]));
+    }
     if (argc < 5 || strcmp(argv[1], "edges"))
     {
         fprintf(stderr, "usage: %s edges <tlc-output> <out-prefix> <batches>\n", argv[0]);
